@@ -356,4 +356,69 @@ def escapeChars : List Char → List PatternChar
   | [c] => [.normal c]
   | c :: d :: t => if c = '\\' then .literal d :: escapeChars t else .normal c :: escapeChars (d :: t)
 
+/-! ## textbook semantics of the regex fragment `to_regex` can emit (wave 2)
+
+    The fragment: `\A`, `\z`, `.`, `.*`, one-character elements (a literal or a class) and `(?:b1|b2|…)` whose
+    branches are sequences of one-character elements.  `reDenotes n re s ρ`: the regex, applied at the suffix `s` of
+    a text of `n` characters, can consume a prefix of `s` and leave `ρ` — the usual denotation, clause by clause,
+    with no reference to any search order.  `reEnum g n re s`: the same rests listed in PRIORITY order (a greedy
+    `.*` offers the longest continuation first, a lazy one the shortest; alternatives in the order written) —
+    "leftmost-first" (Perl-style) semantics says: the match is the first entry. -/
+
+def reDenotes (n : Nat) : List ReAtom → List Char → List Char → Prop
+  | [], s, ρ => ρ = s
+  | .bos :: r, s, ρ => s.length = n ∧ reDenotes n r s ρ
+  | .eos :: r, s, ρ => s = [] ∧ reDenotes n r s ρ
+  | .any :: r, s, ρ => ∃ c t, s = c :: t ∧ reDenotes n r t ρ
+  | .one x :: r, s, ρ => ∃ c t, s = c :: t ∧ x.mem c = true ∧ reDenotes n r t ρ
+  | .star :: r, s, ρ => ∃ u, u <:+ s ∧ reDenotes n r u ρ
+  | .alt bs :: r, s, ρ => ∃ b ∈ bs, ∃ s', matchSimples b s = some s' ∧ reDenotes n r s' ρ
+
+/-- where a `.*` may stop, in priority order: the suffixes of `s`, shortest first when greedy -/
+def starChoices (g : Bool) : List Char → List (List Char)
+  | [] => [[]]
+  | c :: t => if g then starChoices g t ++ [c :: t] else (c :: t) :: starChoices g t
+
+def reEnum (g : Bool) (n : Nat) : List ReAtom → List Char → List (List Char)
+  | [], s => [s]
+  | .bos :: r, s => if s.length = n then reEnum g n r s else []
+  | .eos :: r, s => if s = [] then reEnum g n r s else []
+  | .any :: r, s => match s with
+    | [] => []
+    | _ :: t => reEnum g n r t
+  | .one x :: r, s => match s with
+    | [] => []
+    | c :: t => if x.mem c then reEnum g n r t else []
+  | .star :: r, s => (starChoices g s).flatMap (reEnum g n r)
+  | .alt bs :: r, s => (bs.filterMap (fun b => matchSimples b s)).flatMap (reEnum g n r)
+
+/-! ## exit status of `case` (XCU 2.9.4.3): zero if no body was executed, otherwise the exit status of the last
+    body executed — zero if that body is empty (wave 2) -/
+
+/-- `$?` after running the bodies with the given indices one after the other, starting from `st` -/
+def statusAfter (bodies : List (Nat → Nat)) (st : Nat) (executed : List Nat) : Nat :=
+  executed.foldl (fun st j => match bodies[j]? with | some f => f st | none => st) st
+
+def specCaseStatus (bodies : List (Nat → Nat)) (empties : List Bool) (st0 : Nat) (executed : List Nat) : Nat :=
+  match executed.getLast? with
+  | none => 0
+  | some j => if empties[j]?.getD true then 0 else statusAfter bodies st0 executed
+
+/-- a trim acts on a scalar value, or on every element of an array value (XCU 2.6.2 with `$@` / `$*`) -/
+def Value.map (f : List Char → List Char) : Value → Value
+  | .scalar v => .scalar (f v)
+  | .array vs => .array (vs.map f)
+
+/-- a range whose end collates before its start (`[z-a]`) -/
+def itemInverted : BracketItem → Bool
+  | .range s e => match atomBound s, atomBound e with
+    | some lo, some hi => decide (hi.toNat < lo.toNat)
+    | _, _ => false
+  | .atom _ => false
+
+def hasInvertedRange (ast : Ast) : Bool :=
+  ast.any fun
+    | .bracket b => b.items.any itemInverted
+    | _ => false
+
 end YashModel.Fnmatch
